@@ -157,7 +157,7 @@ fn run_tcp(router: &v::VRouter, segs: Vec<Vec<u8>>, wait_after: Vec<bool>) -> (V
             if wait_after[n] {
                 // a whole request has been delivered and the next one starts in another segment: wait for its response
                 expected += 1;
-                let deadline = tokio::time::Instant::now() + std::time::Duration::from_millis(400);
+                let deadline = tokio::time::Instant::now() + std::time::Duration::from_millis(5000);
                 while complete_responses(&out) < expected {
                     match tokio::time::timeout_at(deadline, c.read(&mut buf)).await {
                         Ok(Ok(0)) => { end = "server-closed"; break 'outer }
@@ -179,10 +179,11 @@ fn run_tcp(router: &v::VRouter, segs: Vec<Vec<u8>>, wait_after: Vec<bool>) -> (V
         }
         if end == "open" {
             let _ = c.shutdown().await;
-            loop { match tokio::time::timeout(std::time::Duration::from_millis(500), c.read(&mut buf)).await { Ok(Ok(0)) | Ok(Err(_)) | Err(_) => break, Ok(Ok(m)) => out.extend_from_slice(&buf[..m]) } }
+            // the server leaves its loop when it reads the end of the stream: reading to EOF is deterministic, the timeout a fallback
+            loop { match tokio::time::timeout(std::time::Duration::from_millis(15000), c.read(&mut buf)).await { Ok(Ok(0)) | Ok(Err(_)) | Err(_) => break, Ok(Ok(m)) => out.extend_from_slice(&buf[..m]) } }
             end = "eof";
         }
-        let _ = tokio::time::timeout(std::time::Duration::from_millis(500), server).await;
+        let _ = tokio::time::timeout(std::time::Duration::from_millis(5000), server).await;
         (out, end)
     });
     let evs = EVENTS.lock().unwrap().iter().map(|(k, a, b)| json!([k, *a as i64, *b as i64])).collect();
